@@ -572,6 +572,15 @@ func (e *Engine) registerConcIntrinsics() {
 	in["context.Background"] = func(r *Run, fr *frame, a []Value) Value {
 		return Iface{T: ctxT(r), V: &ctxObj{r: r}}
 	}
+	in["context.Cause"] = func(r *Run, fr *frame, a []Value) Value {
+		// no WithCancelCause / WithTimeoutCause in the engine's contexts: the cause is the error
+		c := a[0].(Iface).V.(*ctxObj)
+		r.raceAcquire(c)
+		if c.err == nil {
+			return Iface{}
+		}
+		return c.err
+	}
 	in["context.WithCancel"] = func(r *Run, fr *frame, a []Value) Value {
 		parent := a[0].(Iface).V.(*ctxObj)
 		c := &ctxObj{r: r, done: &ChanV{}}
